@@ -111,8 +111,14 @@ where R: Ring, for<'x> &'x R: RingOps<R> {
             RefCell::new(vec![R::zero(); n])
         ).borrow_mut();
 
+        #[cfg(yui_verif)]
+        crate::verif::emit(|| crate::verif::Event::ColStart { site: "triang", col: j });
+
         copy_into(y.col_vec(j), &mut b);
         let col = _solve_triangular(t, a, &diag, &mut b);
+
+        #[cfg(yui_verif)]
+        crate::verif::emit(|| crate::verif::Event::ColDone { site: "triang", col: j, residue_nonzero: b.iter().any(|x| !x.is_zero()) });
 
         if report { 
             let c = counter.incr();
